@@ -1,6 +1,7 @@
 // Allocator ledger + fault injection, installed through nng_init_params.
 #include "internal.h"
 
+#include <stdint.h>
 #include <stdio.h>
 #include <stdlib.h>
 #include <string.h>
@@ -9,11 +10,34 @@
 #include <unordered_map>
 #include <vector>
 
+#define NFRAMES 6
 struct Rec {
 	size_t  size;
 	int64_t seq;
-	void   *site;
+	void   *site[NFRAMES];
 };
+
+// cheap frame-pointer walk (everything is built -fno-omit-frame-pointer)
+static void
+walk(void **out)
+{
+	void **fp = (void **) __builtin_frame_address(0);
+	int    n  = 0, skip = 2;
+	uintptr_t lo = (uintptr_t) fp;
+	while (fp != NULL && n < NFRAMES) {
+		void **next = (void **) fp[0];
+		void  *ret  = fp[1];
+		if (skip > 0)
+			skip--;
+		else
+			out[n++] = ret;
+		if ((uintptr_t) next <= (uintptr_t) fp || (uintptr_t) next > lo + (1u << 20))
+			break;
+		fp = next;
+	}
+	while (n < NFRAMES)
+		out[n++] = NULL;
+}
 
 static struct {
 	std::unordered_map<void *, Rec> *live;
@@ -74,8 +98,13 @@ sim_malloc(size_t sz)
 	void *p = malloc(sz);
 	if (p == NULL)
 		return NULL;
-	(*A.live)[p] = Rec{ sz, A.count, __builtin_return_address(0) };
+	Rec r;
+	r.size = sz;
+	r.seq  = A.count;
+	walk(r.site);
+	(*A.live)[p] = r;
 	A.live_bytes += (int64_t) sz;
+	sim_debug("malloc #%lld %zuB", (long long) A.count, sz);
 	sched_trace(EV_ALLOC, (uint32_t) sz, 0);
 	return p;
 }
@@ -91,8 +120,13 @@ sim_calloc(size_t n, size_t sz)
 	void *p = calloc(n, sz);
 	if (p == NULL)
 		return NULL;
-	(*A.live)[p] = Rec{ tot, A.count, __builtin_return_address(0) };
+	Rec r;
+	r.size = tot;
+	r.seq  = A.count;
+	walk(r.site);
+	(*A.live)[p] = r;
 	A.live_bytes += (int64_t) tot;
+	sim_debug("calloc #%lld %zuB", (long long) A.count, tot);
 	sched_trace(EV_ALLOC, (uint32_t) tot, 1);
 	return p;
 }
@@ -114,6 +148,7 @@ sim_free(void *p, size_t sz)
 		    it->second.size, (long long) it->second.seq, sz);
 	}
 	A.live_bytes -= (int64_t) it->second.size;
+	sim_debug("free #%lld %zuB", (long long) it->second.seq, sz);
 	A.live->erase(it);
 	sched_trace(EV_ALLOC, (uint32_t) sz, 2);
 	free(p);
@@ -160,13 +195,17 @@ sim_alloc_check_balance(const char *prop)
 		v.push_back(kv.second);
 	std::sort(v.begin(), v.end(),
 	    [](const Rec &a, const Rec &b) { return a.seq < b.seq; });
-	char   buf[512];
+	char   buf[900];
 	size_t off = 0;
 	off += snprintf(buf + off, sizeof(buf) - off,
 	    "%zu blocks (%lld bytes) still allocated after nng_fini:",
 	    v.size(), (long long) A.live_bytes);
-	for (size_t i = 0; i < v.size() && i < 8 && off < sizeof(buf) - 40; i++)
-		off += snprintf(buf + off, sizeof(buf) - off, " #%lld(%zuB)",
+	for (size_t i = 0; i < v.size() && i < 4 && off < sizeof(buf) - 160; i++) {
+		off += snprintf(buf + off, sizeof(buf) - off, " #%lld(%zuB)@",
 		    (long long) v[i].seq, v[i].size);
+		for (int k = 0; k < NFRAMES && v[i].site[k]; k++)
+			off += snprintf(buf + off, sizeof(buf) - off, "%s%p", k ? "<" : "",
+			    v[i].site[k]);
+	}
 	sim_violation(prop, "leak", "%s", buf);
 }
